@@ -370,21 +370,8 @@ func (vfs *OrefaFS) Link(oldname, newname string) error {
 		return &os.LinkError{Op: op, Old: oldname, New: newname, Err: vfs.err.NoSuchFile}
 	}
 
-	verifYield(&oChild.mu, true)
-	oChild.mu.Lock()
-	defer oChild.mu.Unlock()
-
-	verifYield(&nParent.mu, true)
-	nParent.mu.Lock()
-	defer nParent.mu.Unlock()
-
-	if oChild.mode.IsDir() {
-		err := error(avfs.ErrOpNotPermitted)
-		if vfs.OSType() == avfs.OsWindows {
-			err = avfs.ErrWinAccessDenied
-		}
-
-		return &os.LinkError{Op: op, Old: oldname, New: newname, Err: err}
+	if !nParent.mode.IsDir() {
+		return &os.LinkError{Op: op, Old: oldname, New: newname, Err: vfs.err.NotADirectory}
 	}
 
 	if nChildOk {
@@ -395,6 +382,24 @@ func (vfs *OrefaFS) Link(oldname, newname string) error {
 
 		return &os.LinkError{Op: op, Old: oldname, New: newname, Err: err}
 	}
+
+	if oChild.mode.IsDir() {
+		err := error(avfs.ErrOpNotPermitted)
+		if vfs.OSType() == avfs.OsWindows {
+			err = avfs.ErrWinAccessDenied
+		}
+
+		return &os.LinkError{Op: op, Old: oldname, New: newname, Err: err}
+	}
+
+	// oChild is not a directory and nParent is one : they are different nodes.
+	verifYield(&oChild.mu, true)
+	oChild.mu.Lock()
+	defer oChild.mu.Unlock()
+
+	verifYield(&nParent.mu, true)
+	nParent.mu.Lock()
+	defer nParent.mu.Unlock()
 
 	verifYield(&vfs.mu, true)
 	vfs.mu.Lock()
